@@ -94,18 +94,20 @@ impl Divert {
         }
 
         // A divert without a target path, or with an empty one, points nowhere
-        let last_component = match self.target_path.borrow().as_ref() {
-            Some(path) => path.get_last_component().cloned(),
-            None => None,
+        let Some(target_path) = self.target_path.borrow().clone() else {
+            return pointer::NULL.clone();
         };
-        let Some(last_component) = last_component else {
+        let Some(last_component) = target_path.get_last_component().cloned() else {
             return pointer::NULL.clone();
         };
 
-        let target_obj =
-            Object::resolve_path(self.clone(), self.target_path.borrow().as_ref().unwrap())
-                .obj
-                .clone();
+        // ...and so does one whose path does not lead all the way to a target
+        // (the nearest container that was found is not what was asked for)
+        let target = Object::resolve_path(self.clone(), &target_path);
+        if target.approximate {
+            return pointer::NULL.clone();
+        }
+        let target_obj = target.obj.clone();
 
         let target_pointer = if let Some(index) = last_component.index {
             Pointer::new(target_obj.get_object().get_parent(), index as i32)
